@@ -1,11 +1,14 @@
 import EgoVerif.Common.Drv
 import EgoVerif.C07.Model
+import EgoVerif.C07.Chan
 /- line protocol (one call sequence per line; results joined by ';', a Go panic ends the
    sequence with `PANIC`; the final state is appended after '|'):
    `cur <id.line.pos,…|-> <op;op;…>`   ops: next peek:k end adv:k isn:t any:t,t eos line col mark
                                              set:k reset del:a:b ins:k:id.line.pos,… text:a:b toks:a:b rem
    `stk <op;…>`                        ops: push:V pop fpush fpop read:k chk:k drop:n dup swap res:V   (V = n | m | i<int> | f<int>)
-   `arr <b|d> <n> <op;…>`              ops: get:i set:i:v seta:i:v app:v sl:x:y sla:x:y size:n del:i len ro:0|1 -/
+   `arr <b|d> <n> <op;…>`              ops: get:i set:i:v seta:i:v app:v sl:x:y sla:x:y size:n del:i len ro:0|1
+   `chn <size|nil> <op;…>`             ops: s:v r c len cap open empty — call k is made by goroutine k; per step the calls that
+                                       completed in it (`k=res,…` by k, `-` if none); `|open=…,len=…,parked=…` at the end -/
 namespace EgoVerif.C07
 
 def pInt (s : String) : Int := (s.toInt?).getD 0
@@ -127,6 +130,49 @@ def loopA (a : Arr) (acc : List String) : List (Option AOp) → Arr × List Stri
     | .ok (a', o) => loopA a' (showAOut o :: acc) rest
     | .error _ => (a, ("PANIC" :: acc).reverse)
 
+def pChOp (s : String) : Option ChOp :=
+  match s.splitOn ":" with
+  | ["s", v] => some (.send (pInt v))
+  | ["r"] => some .recv
+  | ["c"] => some .close
+  | ["len"] => some .len
+  | ["cap"] => some .cap
+  | ["open"] => some .isOpen
+  | ["empty"] => some .isEmpty
+  | _ => none
+
+def showB (b : Bool) : String := if b then "T" else "F"
+
+def showCRes : CRes → String
+  | .sent => "ok"
+  | .val v => "v" ++ toString v
+  | .notOpen => "N"
+  | .nilRef => "NIL"
+  | .closed w e => "c" ++ showB w ++ (if e then "N" else "")
+  | .b x => showB x
+  | .n x => "i" ++ toString x
+
+def insByActor (x : Nat × CRes) : List (Nat × CRes) → List (Nat × CRes)
+  | [] => [x]
+  | y :: ys => if x.1 ≤ y.1 then x :: y :: ys else y :: insByActor x ys
+
+def showDone (l : List (Nat × CRes)) : String :=
+  if l.isEmpty then "-" else
+  ",".intercalate ((l.foldr insByActor []).map fun p => toString p.1 ++ "=" ++ showCRes p.2)
+
+def loopCh (c : Chan) (k : Nat) (acc : List String) : List (Option ChOp) → Chan × List String
+  | [] => (c, acc.reverse)
+  | none :: _ => (c, ("bad-op" :: acc).reverse)
+  | some op :: rest =>
+    match chStep true c k op with
+    | .ok (c', out) => loopCh c' (k + 1) (showDone out :: acc) rest
+    | .error _ => (c, ("PANIC" :: acc).reverse)
+
+def loopNil (k : Nat) (acc : List String) : List (Option ChOp) → List String
+  | [] => acc.reverse
+  | none :: _ => ("bad-op" :: acc).reverse
+  | some op :: rest => loopNil (k + 1) (showDone [(k, nilStep op)] :: acc) rest
+
 def ops (s : String) : List String := if s == "-" then [] else s.splitOn ";"
 
 def handle (line : String) : String :=
@@ -142,6 +188,11 @@ def handle (line : String) : String :=
     let (a, out) := loopA (Arr.new (k == "b") (pNat n)) [] ((ops os).map pAOp)
     ";".intercalate out ++ "|len=" ++ toString a.size ++ ","
       ++ ",".intercalate ((if a.isByte then a.bytes else a.data).map toString)
+  | ["chn", "nil", os] => ";".intercalate (loopNil 0 [] ((ops os).map pChOp)) ++ "|nil"
+  | ["chn", n, os] =>
+    let (c, out) := loopCh (Chan.new (pInt n)) 0 [] ((ops os).map pChOp)
+    ";".intercalate out ++ "|open=" ++ showB c.isOpen ++ ",len=" ++ toString c.ch.buf.length
+      ++ ",parked=" ++ toString (c.ch.sendq.length + c.ch.recvq.length)
   | _ => "bad-op"
 
 def drv : Drv := Drv.pure handle
